@@ -254,7 +254,7 @@ func propOf(symptom string) string {
 		return "C08"
 	case "outside_targeted_vsys":
 		return "C07"
-	case "resume_refused", "resume_not_equivalent", "resume_second_plan_not_empty":
+	case "resume_refused", "resume_not_equivalent", "resume_second_plan_not_empty", "resume_state_not_wellformed":
 		return "C10"
 	case "refused_not_converged":
 		return "C03"
@@ -344,7 +344,13 @@ func (c *checker) tie(stream string, in caseInput, p realPlan) (per map[string][
 		return nil, nil, false
 	}
 	if p.ParseErr {
+		// every configuration of this harness is written by its generator (or rendered from a decoded
+		// tree): the tool must read it
 		res.Count("real:parse-error")
+		res.Disagree(stream+" (the tool's parser refuses a configuration the generator wrote: "+p.Err+")", in, p.Err, "accepted")
+		return nil, nil, false
+	}
+	if !c.decodeCheck(stream, in, p) {
 		return nil, nil, false
 	}
 	devA, devB := p.A.DevName, p.B.DevName
@@ -398,6 +404,50 @@ func (c *checker) tie(stream string, in caseInput, p realPlan) (per map[string][
 	return per, flags, agree
 }
 
+// decodeCheck compares what the tool's parser made of the device and of the (merged) target with
+// an independent reading of the same text.
+func (c *checker) decodeCheck(stream string, in caseInput, p realPlan) bool {
+	res := c.res
+	wa, err := readConfig(in.Dev)
+	if err != nil {
+		res.Disagree(stream+" (harness: the device text is not well-formed XML: "+err.Error()+")", in, "", "")
+		return false
+	}
+	if d := compareDecoded(p.A, wa, true); d != "" {
+		res.Disagree(stream+" (decoding of the device: "+d+")", in, "", "")
+		return false
+	}
+	switch {
+	case in.V6 == "" && in.Raw == "":
+		wb, err := readConfig(in.Spoc)
+		if err != nil {
+			res.Disagree(stream+" (harness: the target text is not well-formed XML: "+err.Error()+")", in, "", "")
+			return false
+		}
+		if d := compareDecoded(p.B, wb, true); d != "" {
+			res.Disagree(stream+" (decoding of the target: "+d+")", in, "", "")
+			return false
+		}
+	case in.expectText != "":
+		wb, err := readConfig(in.expectText)
+		if err != nil {
+			res.Disagree(stream+" (harness: expected target not well-formed: "+err.Error()+")", in, "", "")
+			return false
+		}
+		if d := compareDecoded(p.B, wb, false); d != "" {
+			res.Disagree(stream+" (decoding / merging of the target from main, ipv6 and raw file: "+d+")", in, "", "")
+			return false
+		}
+		res.Count("decode-check:merged-target")
+	default:
+		// a replayed case with raw / IPv6 parts: the generator's merged target is not recorded
+		res.Count("decode-check-skipped:merged-target-of-a-replay")
+		return true
+	}
+	res.Count("decode-check:ok")
+	return true
+}
+
 func renderPair(a panos.VerifVsys, b panos.VerifVsys) (string, string) {
 	return renderConfig("localhost.localdomain", []panos.VerifVsys{a}, false),
 		renderConfig("localhost.localdomain", []panos.VerifVsys{b}, false)
@@ -429,6 +479,9 @@ func (c *checker) runCase(in caseInput, deep bool) (devVsys []panos.VerifVsys, r
 		c.compareDrcMain(in, p)
 	}
 	if per == nil {
+		// no plan: the tool reported an error (compared with the model's in tie), panicked, or its
+		// reading of the input differs from the text (both reported in tie)
+		res.Count("case:no-plan")
 		res.Eval(canon, false)
 		return
 	}
@@ -442,6 +495,8 @@ func (c *checker) runCase(in caseInput, deep bool) (devVsys []panos.VerifVsys, r
 	res.Count(fmt.Sprintf("vsys:%d", len(p.A.Vsys)))
 	_ = ok // the oracle below judges the real requests whether or not the model agrees
 	if flags == nil {
+		res.Count("case:no-flags-from-the-model")
+		res.Disagree("plan (driver gave no flags)", in, "", "")
 		return
 	}
 	if len(res.Samples) < 3 && total > 3 {
@@ -487,6 +542,16 @@ func (c *checker) runCase(in caseInput, deep bool) (devVsys []panos.VerifVsys, r
 			trees[name] = r.Tree
 		} else {
 			allAccepted = false
+		}
+		// the state the device is left in must itself be a configuration the device can hold: names are
+		// keys, address and address-group share a name space (so do service and service-group), every
+		// reference resolves, no member twice
+		if !r.WF {
+			c.fail("reached_state_not_wellformed", classify(fl, "reached_state_not_wellformed", r.Err, "", nil),
+				fmt.Sprintf("after %d of %d requests the vsys %s is not a well-formed configuration (a name used twice / by an address and a group, a dangling reference, or a member twice)",
+					r.Accepted, len(cmds), name), in, map[string]any{"error": r.Err})
+		} else {
+			res.Count("oracle:reached-state-wellformed")
 		}
 		if len(cmds) == 0 {
 			res.Count("oracle:empty-plan")
@@ -613,15 +678,22 @@ func (c *checker) resume(in caseInput, name string, a, b panos.VerifVsys, cmds [
 	}
 	for k := 0; k < len(cmds); k++ {
 		r, ok := c.exec(in.Shared, a, cmds[:k], nil)
-		if !ok || r.Accepted != k {
-			return // the prefix itself is refused: reported as C08
+		if !ok {
+			res.Disagree("exec of a prefix (driver)", in, "", r.Raw)
+			return
+		}
+		if r.Accepted != k {
+			res.Count("resume-stopped:prefix-refused") // the refusal itself is reported by runCase (C08)
+			return
 		}
 		res.Count("resume:cuts")
 		dk, sk := renderPair(r.Tree, b)
 		pk := planReal(dk, sk, "", "")
 		ink := caseInput{Dev: dk, Spoc: sk, Shared: in.Shared, Mode: "resume"}
-		perk, flk, okk := c.tie("plan after cut", ink, pk)
-		if !okk {
+		perk, flk, _ := c.tie("plan after cut", ink, pk)
+		if perk == nil {
+			// the tool gave no plan for the state after the cut: reported by tie (error / panic / decoding)
+			res.Count("resume-skipped:no-plan-after-cut")
 			continue
 		}
 		fl = withSent(fl, perk[name])
@@ -635,9 +707,14 @@ func (c *checker) resume(in caseInput, name string, a, b panos.VerifVsys, cmds [
 		}
 		rk, ok := c.exec(in.Shared, r.Tree, perk[name], &b)
 		if !ok {
+			res.Disagree("exec after cut (driver)", in, "", rk.Raw)
 			continue
 		}
 		what := fmt.Sprintf("vsys %s, cut after %d of %d requests", name, k, len(cmds))
+		if !r.WF || !rk.WF {
+			c.fail("resume_state_not_wellformed", classify(fl, "resume_state_not_wellformed", rk.Err, "", nil),
+				what+": the state after the cut or after the second run is not a well-formed configuration", in, map[string]any{"error": rk.Err})
+		}
 		if rk.Accepted != len(perk[name]) {
 			c.fail("resume_refused", classify(fl, "resume_refused", rk.Err, "", nil),
 				what+": request "+fmt.Sprint(rk.Accepted+1)+" of the second run is refused ("+rk.Err+")", in, map[string]any{"error": rk.Err})
@@ -710,7 +787,11 @@ func (c *checker) compareDrcMain(in caseInput, p realPlan) {
 		return
 	}
 	if p.Err != "" {
-		if status == 0 || !strings.Contains(stderr, "ERROR>>>") {
+		first, _, _ := strings.Cut(p.Err, "\n")
+		if i := strings.Index(first, " of XML"); i >= 0 && strings.HasPrefix(first, "Different names") {
+			first = first[:i+7]
+		}
+		if status == 0 || !strings.Contains(stderr, "ERROR>>>") || !strings.Contains(stderr, first) {
 			c.res.Disagree("drc.Main error", in, fmt.Sprintf("status %d stderr %s", status, stderr), p.Err)
 		}
 		return
